@@ -430,6 +430,32 @@ pub fn k02_chain(thorough: bool) -> Vec<G> {
     out
 }
 
+/// `a.or_not()` driven through its `IterParser` impl (collect / count / unit / collect_exactly / folds), for
+/// every K01 grammar `a` with <= n nodes, and every ordered pair of a small list of options chained with
+/// `IterParser::then`; each followed by a rest capture. "On failure an option consumes nothing" is the same
+/// PEG rule whichever interface drives the option.
+pub fn k01_opt_iter(n: usize) -> Vec<G> {
+    let mut out = vec![];
+    for a in k01().upto(n) {
+        for s in k02_chain_sinks() {
+            out.push(with_rest(IterChain(vec![Part::Opt(b(a.clone()))], s)));
+        }
+    }
+    let small: Vec<G> = vec![Just('a'), JustSeq('a', 'b'), Then(b(Just('a')), b(Just('b'))), Filter(b(Any)), Then(b(Any), b(Not(b(Just('c'))))), Or(b(JustSeq('a', 'c')), b(Just('b')))];
+    for x in &small {
+        for y in &small {
+            for s in k02_chain_sinks() {
+                out.push(with_rest(IterChain(vec![Part::Opt(b(x.clone())), Part::Opt(b(y.clone()))], s)));
+            }
+        }
+        for s in k02_chain_sinks() {
+            out.push(with_rest(IterChain(vec![Part::Opt(b(x.clone())), Part::Rep(b(Just('c')), Bounds::STAR)], s.clone())));
+            out.push(with_rest(IterChain(vec![Part::Rep(b(Just('c')), Bounds::STAR), Part::Opt(b(x.clone()))], s)));
+        }
+    }
+    out
+}
+
 // ---- decorations (C11, C17): wrap every node of a subset --------------------------------------------
 
 /// Rebuild `g` wrapping the nodes whose pre-order index is in `mask` with `wrap`.
